@@ -80,14 +80,68 @@ def _worker(args):
     return res
 
 
-def run_jobs(modname, jobs, nproc=NPROC):
+def _child(conn, modname, job):
+    try:
+        conn.send(_worker((modname, job)))
+    except BaseException as e:
+        try:
+            conn.send({'name': job.get('name', '?'), 'obligations': [], 'error': 'worker failed: %r' % (e,)})
+        except Exception:
+            pass
+    finally:
+        conn.close()
+
+
+def run_jobs(modname, jobs, nproc=NPROC, default_wall=900):
+    """One process per job (fork), at most nproc at a time, hard wall-clock limit per job (job['wall'] seconds).
+    A job that is killed or whose process dies yields one 'unknown' obligation -- never a verdict."""
     if not jobs:
         return []
-    if nproc <= 1 or len(jobs) == 1:
-        return [_worker((modname, j)) for j in jobs]
     ctx = mp.get_context('fork')
-    with ctx.Pool(min(nproc, len(jobs)), maxtasksperchild=1) as pool:
-        return list(pool.imap_unordered(_worker, [(modname, j) for j in jobs], chunksize=1))
+    pending = list(enumerate(jobs))
+    # longest first
+    pending.sort(key=lambda ij: -ij[1].get('cost', 1))
+    running = {}
+    results = []
+    while pending or running:
+        while pending and len(running) < nproc:
+            i, job = pending.pop(0)
+            pc, cc = ctx.Pipe(duplex=False)
+            p = ctx.Process(target=_child, args=(cc, modname, job), daemon=True)
+            p.start()
+            cc.close()
+            running[i] = (p, pc, job, time.time())
+        time.sleep(0.05)
+        for i in list(running):
+            p, pc, job, t0 = running[i]
+            done = False
+            if pc.poll():
+                try:
+                    results.append(pc.recv())
+                except EOFError:
+                    results.append(_lost(job, 'worker process died'))
+                done = True
+            elif not p.is_alive():
+                if pc.poll():
+                    continue
+                results.append(_lost(job, 'worker process died (exit code %s)' % p.exitcode))
+                done = True
+            elif time.time() - t0 > job.get('wall', default_wall):
+                p.kill()
+                results.append(_lost(job, 'killed after the wall-clock limit of %ds' % job.get('wall', default_wall)))
+                done = True
+            if done:
+                p.join(timeout=5)
+                if p.is_alive():
+                    p.kill()
+                pc.close()
+                del running[i]
+    return results
+
+
+def _lost(job, why):
+    o = Obligation('job did not finish', 'unknown', note=why).as_dict()
+    return {'name': job.get('name', '?'), 'obligations': [o], 'wall_s': job.get('wall', 0)}
 
 
 def write_replay(prop, cex):
